@@ -9,7 +9,7 @@
 //!   rfactor mode n   (only when RFACTOR_BIN points to a built `rfactor`)
 //! `prof` is the profile of *this* binary (dev: overflow checks + debug assertions; release: neither).
 use crate::common::*;
-use num::{BigInt, One, Signed, Zero};
+use num::{ToPrimitive, BigInt, One, Signed, Zero};
 use rust_number_theory::ecm::verif as ev;
 use rust_number_theory::ecm_parallel::verif as pv;
 use rust_number_theory::{ecm, ecm_parallel, factorize};
@@ -231,6 +231,65 @@ fn do_selectb(ctx: &mut Ctx, n: &BigInt) {
     let ans = run(|| ev::select_b(n).to_string());
     ctx.emit("selectb", &[n.to_string()], ans);
 }
+/// `select_b(d)` for every divisor d of n with 1000 < d < n, as `d:b,…` (`_` = none): the batched
+/// driver chooses its bound per work item, and `select_b` is floating-point code above 1000 (not
+/// modelled), so the model looks the values up in this table. Divisors come from the expected
+/// factorisation, or from trial division for small n.
+fn btab_for(n: &BigInt, expected: &str) -> String {
+    let mut pf: Vec<(BigInt, u32)> = vec![];
+    if expected != "_" && !expected.is_empty() {
+        for item in expected.split(',') {
+            if let Some((p, e)) = item.split_once(':') {
+                if let (Ok(p), Ok(e)) = (p.parse::<BigInt>(), e.parse::<u32>()) {
+                    pf.push((p, e));
+                }
+            }
+        }
+    } else if n > &BigInt::from(1000) && n < &(BigInt::from(1) << 44) {
+        let mut m = n.to_u64().unwrap();
+        let mut d = 2u64;
+        while d * d <= m {
+            let mut e = 0;
+            while m % d == 0 {
+                m /= d;
+                e += 1;
+            }
+            if e > 0 {
+                pf.push((big(d), e));
+            }
+            d += 1;
+        }
+        if m > 1 {
+            pf.push((big(m), 1));
+        }
+    }
+    let mut divs: Vec<BigInt> = vec![BigInt::from(1)];
+    for (p, e) in &pf {
+        let mut next = vec![];
+        for d in &divs {
+            let mut q = d.clone();
+            for _ in 0..=*e {
+                next.push(q.clone());
+                q *= p;
+            }
+        }
+        divs = next;
+        if divs.len() > 4096 {
+            return "_".into();
+        }
+    }
+    divs.sort();
+    divs.dedup();
+    let thousand = BigInt::from(1000);
+    let items: Vec<String> =
+        divs.iter().filter(|d| *d > &thousand && *d < n).map(|d| format!("{}:{}", d, ev::select_b(d))).collect();
+    if items.is_empty() {
+        "_".into()
+    } else {
+        items.join(",")
+    }
+}
+
 fn do_factorize(ctx: &mut Ctx, par: bool, n: &BigInt, expected: &str, script: Vec<Vec<u8>>, seed: Option<u64>) {
     let b = ev::select_b(n);
     let seed = seed.unwrap_or_else(|| ctx.rng.next());
@@ -238,11 +297,12 @@ fn do_factorize(ctx: &mut Ctx, par: bool, n: &BigInt, expected: &str, script: Ve
         let (r, st) = if par { ecm_parallel::factorize_verbose(n, false) } else { ecm::factorize_verbose(n, false) };
         format!("{}|{}", show_pairs(&r), st.curve_count)
     });
-    ctx.emit(
-        if par { "ecmp.factorize" } else { "ecm.factorize" },
-        &[n.to_string(), b.to_string(), expected.to_string(), prof().into(), log],
-        ans,
-    );
+    if par {
+        let btab = btab_for(n, expected);
+        ctx.emit("ecmp.factorize", &[n.to_string(), b.to_string(), expected.to_string(), prof().into(), log, btab], ans);
+    } else {
+        ctx.emit("ecm.factorize", &[n.to_string(), b.to_string(), expected.to_string(), prof().into(), log], ans);
+    }
 }
 fn do_trial(ctx: &mut Ctx, n: &BigInt, expected: &str) {
     let ans = run(|| show_pairs(&factorize::factorize(n)));
@@ -263,11 +323,16 @@ fn do_rfactor(ctx: &mut Ctx, mode: &str, n: &BigInt) -> bool {
     if mode == "json" {
         cmd.arg("--json");
     }
-    let out = cmd.arg(n.to_string()).output();
-    let ans = match out {
-        Ok(o) if o.status.success() => String::from_utf8_lossy(&o.stdout).replace('\n', "\\n"),
-        Ok(_) => "panic other".to_string(),
-        Err(_) => return false,
+    if std::env::var("NTV_DRY").is_ok() {
+        ctx.emit("rfactor", &[mode.to_string(), n.to_string()], "dry".into());
+        return true;
+    }
+    cmd.arg(n.to_string());
+    let ans = match output_with_timeout(cmd) {
+        Some(Ok(o)) if o.status.success() => String::from_utf8_lossy(&o.stdout).replace('\n', "\\n"),
+        Some(Ok(_)) => "panic other".to_string(),
+        Some(Err(_)) => return false,
+        None => "panic timeout".to_string(),
     };
     ctx.emit("rfactor", &[mode.to_string(), n.to_string()], ans);
     true
@@ -304,7 +369,8 @@ pub fn replay(ctx: &mut Ctx, f: &[&str]) -> bool {
             Some(0),
         ),
         ("selectb", 2) => do_selectb(ctx, &parse_int(f[1])),
-        ("ecm.factorize" | "ecmp.factorize", 6) => {
+        ("ecm.factorize" | "ecmp.factorize", 6) | ("ecmp.factorize", 7) => {
+            // the table of bounds (7th field of the batched op) is recomputed, not read back
             do_factorize(ctx, f[0] == "ecmp.factorize", &parse_int(f[1]), f[3], parse_chunks(f[5]), Some(0))
         }
         ("td.factorize", 2) => do_trial(ctx, &parse_int(f[1]), "_"),
@@ -579,6 +645,17 @@ fn gen_factorize(ctx: &mut Ctx) {
         let nb: BigInt = n.parse().unwrap();
         all_three(ctx, &nb, exp, false);
     }
+    // a small composite times a large prime: the batched driver must size its batches by the item
+    // being split (a batch sized for the 131-bit input never separates 3 from 5: D15)
+    for (k, e) in [(61u32, "3:1,5:1,2305843009213693951:1"), (89, "3:1,5:1,618970019642690137449562111:1"), (127, "3:1,5:1,170141183460469231731687303715884105727:1")] {
+        let n = ((BigInt::from(1) << k) - 1) * 15;
+        do_factorize(ctx, true, &n, e, vec![], None);
+        do_factorize(ctx, false, &n, e, vec![], None);
+    }
+    {
+        let n = ((BigInt::from(1) << 107) - 1) * 105;
+        do_factorize(ctx, true, &n, "3:1,5:1,7:1,162259276829213363391578010288127:1", vec![], None);
+    }
     // even numbers: 2^a * m
     for _ in 0..ctx.pick(40, 600) {
         let a = 1 + ctx.rng.below(40) as usize;
@@ -807,6 +884,7 @@ fn gen_rfactor(ctx: &mut Ctx) {
         (&two64 - big(59)) * big(2),
         (&two64 - big(59)) * big(1000003),
         (BigInt::from(1) << 89) - 1,
+        ((BigInt::from(1) << 127) - 1) * 15,
     ]);
     for n in &cs {
         do_cli_fact(ctx, n);
